@@ -605,6 +605,13 @@ fn main() {
                 let v = reorder_random(r, &v0);
                 emit(o, format!("obs {}", fmt_pd(&v)));
                 emit(o, format!("obs {}", fmt_pd(&mirror_pd(pd))));
+                // mirror of a diagram with all four crossing types
+                let m0 = partial_resolve(r, pd);
+                let m1 = partial_resolve(r, &mirror_pd(&m0));
+                let mut mixed: PD = vec![];
+                for (t, e) in m1.iter() { let flip = r.bool(); mixed.push((if *t == 'X' && flip { 'M' } else { *t }, *e)); }
+                emit(o, format!("mirror {}", fmt_pd(&mixed)));
+                emit(o, format!("inv mirror {} {}", fmt_pd(&mixed), fmt_pd(&mirror_pd(&mixed))));
                 emit(o, format!("obs {}", fmt_pd(&partial_resolve(r, pd))));
                 if let Some(k) = add_kink(r, pd) {
                     emit(o, format!("obs {}", fmt_pd(&k)));
@@ -688,6 +695,7 @@ fn main() {
                     emit(&mut o, format!("resby {} {}", fmt_pd(&pd), bits(&mut r, cn)));
                     emit(&mut o, format!("inv relab {} {}", fmt_pd(&pd), fmt_pd(&relabel_random(&mut r, &pd))));
                     emit(&mut o, format!("inv mirror {} {}", fmt_pd(&pd), fmt_pd(&mirror_pd(&pd))));
+                    emit(&mut o, format!("mirror {}", fmt_pd(&pd)));
                 }
             }
             // 5. malformed stream: labels occurring 1, 3, 4 times; damaged valid codes
